@@ -3,17 +3,22 @@ package props
 import (
 	"bytes"
 	"fmt"
+	"sort"
 	"strings"
 	"testing"
 
 	"github.com/ipfs/go-cid"
 	"github.com/ipfs/go-unixfsnode"
+	"github.com/ipfs/go-unixfsnode/data/builder"
+	dagpb "github.com/ipld/go-codec-dagpb"
 	"github.com/ipld/go-ipld-prime"
 	"github.com/ipld/go-ipld-prime/datamodel"
+	cidlink "github.com/ipld/go-ipld-prime/linking/cid"
 	"github.com/ipld/go-ipld-prime/traversal"
 	"github.com/ipld/go-ipld-prime/traversal/selector"
 	selbuilder "github.com/ipld/go-ipld-prime/traversal/selector/builder"
 
+	"verifharness/gen"
 	"verifharness/mon"
 	"verifharness/store"
 )
@@ -320,6 +325,103 @@ func TestC03(t *testing.T) {
 			c.Sample(map[string]any{"nodes": len(nodes), "root": root.Cid.String()})
 		})
 	}
+	// paths of well over a hundred segments: a chain of equally named directories (every level a
+	// different directory, since it holds a different rest of the chain) with a file at the bottom
+	for _, depth := range []int{r.Pick(140, 260), r.Pick(131, 400)} {
+		depth := depth
+		r.Case(fmt.Sprintf("deep-path/%d", depth), map[string]any{"segments": depth}, func(c *mon.Case) {
+			st := store.New()
+			ls := st.LinkSystem(false)
+			content := gen.Content(c.Rand(), "rand", 50)
+			var fl ipld.Link
+			var fsz uint64
+			var err error
+			withWidth(2, func() { fl, fsz, err = builder.BuildUnixFSFile(bytes.NewReader(content), "size-8", ls) })
+			if err != nil {
+				c.Harness("file: %v", err)
+				return
+			}
+			// cids[k] is the directory k levels down; the deepest one holds the file "f"
+			cids := make([]cid.Cid, depth+1)
+			below, belowSz, name := fl, fsz, "f"
+			for k := depth; k >= 0; k-- {
+				e, err := builder.BuildUnixFSDirectoryEntry(name, int64(belowSz), below)
+				if err != nil {
+					c.Harness("entry: %v", err)
+					return
+				}
+				marker, _ := builder.BuildUnixFSDirectoryEntry(fmt.Sprintf("level-%d", k), 1, cidlink.Link{Cid: st.PutBlock(1, cid.Raw, []byte{byte(k)})})
+				l, sz, err := builder.BuildUnixFSDirectory([]dagpb.PBLink{e, marker}, ls)
+				if err != nil {
+					c.Harness("dir: %v", err)
+					return
+				}
+				cids[k], below, belowSz, name = linkCid(l), l, sz, "d"
+			}
+			rls := st.LinkSystem(true)
+			raw, err := loadRaw(rls, cids[0])
+			if err != nil {
+				c.Harness("load: %v", err)
+				return
+			}
+			for _, k := range []int{1, 64, 127, 128, 129, depth - 1, depth} {
+				if k > depth {
+					continue
+				}
+				path := strings.Repeat("d/", k)
+				want := fmt.Sprintf("level-%d", k)
+				var ms []matchRec
+				var werr error
+				c.Guard("WalkMatching", func() {
+					sel, e := selector.CompileSelector(unixfsnode.UnixFSPathSelector(path))
+					if e != nil {
+						werr = e
+						return
+					}
+					werr = progressFor(rls).WalkMatching(raw, sel, func(p traversal.Progress, n datamodel.Node) error {
+						ms = append(ms, recordMatch(p, n))
+						return nil
+					})
+				})
+				c.Count("traversals", 1)
+				c.Count("deep_paths", 1)
+				if werr != nil || len(ms) != 1 {
+					c.Violation("C03|match-count|deep-path", "a path of %d segments: %d matches, err %v", k, len(ms), werr)
+					continue
+				}
+				if _, ok := ms[0].Ents[want]; !ok {
+					c.Violation("C03|match-content|deep-path", "a path of %d segments matched a directory that is not the one %d levels down (its entries: %v)", k, k, keysOf(ms[0].Ents))
+				}
+			}
+			// the file at the very bottom
+			var fm []matchRec
+			c.Guard("WalkMatching", func() {
+				sel, e := selector.CompileSelector(unixfsnode.UnixFSPathSelector(strings.Repeat("d/", depth) + "f"))
+				if e == nil {
+					progressFor(rls).WalkMatching(raw, sel, func(p traversal.Progress, n datamodel.Node) error {
+						fm = append(fm, recordMatch(p, n))
+						return nil
+					})
+				}
+			})
+			if len(fm) != 1 || !bytes.Equal(fm[0].Bytes, content) {
+				c.Violation("C03|match-content|deep-path", "the file below %d directories: %d matches", depth, len(fm))
+			}
+			c.Sig(fmt.Sprintf("deep-path|%s", sizeClass(depth)), true)
+		})
+	}
+}
+
+func keysOf(m map[string]cid.Cid) []string {
+	var out []string
+	for k := range m {
+		out = append(out, k)
+	}
+	sort.Strings(out)
+	if len(out) > 6 {
+		out = out[:6]
+	}
+	return out
 }
 
 var _ ipld.Node
